@@ -223,6 +223,8 @@ POOL = {
     "pagedfn": dict(path="single", sections=[dict(n=5, m=2)], comp={"footnote": ["", "", 0]}, nrow=4, page_footnote="all", body_border_last=""),
     # paginated with the default (auto-populated) column header
     "pagedhdr": dict(path="single", sections=[dict(n=9, m=2)], comp={}, nrow=4, default_header=True),
+    # multi-section, the first section has fewer columns than the last, no footnote
+    "multi13": dict(path="multi", sections=[dict(n=2, m=1), dict(n=2, m=3)], comp={}),
     "paged": dict(path="single", sections=[dict(n=4, m=1, text=[["blue"], ["red"]])], comp={"title": ["", "", 0], "footnote": ["", "", 0]}, nrow=3),
 }
 
